@@ -37,6 +37,9 @@ use std::time::Duration;
 
 pub struct C07;
 
+/// monitor reports (panic / allocation / ill-formed sample) from callbacks that ran under the scheduler
+static MON: Mutex<Vec<String>> = Mutex::new(Vec::new());
+
 const E2_NAMES: [&str; 7] = [
 	"generic command channel: game writes k=1 payload || audio reads x3",
 	"generic command channel: game writes k=2 payloads || audio reads x3",
@@ -140,6 +143,10 @@ fn finish_e2(ctx: &mut Ctx, name: &str, stats: sched::ExploreStats, outcomes: st
 	ctx.nontrivial_extra += nontrivial;
 	for (s, d) in fails {
 		ctx.fail(s, d);
+	}
+	let mon: Vec<String> = std::mem::take(&mut *MON.lock().unwrap());
+	if let Some(m) = mon.first() {
+		ctx.fail(format!("a callback racing with handle calls panics, allocates or writes an ill-formed sample :: E2 {}", name), format!("{} report(s), first: {}", mon.len(), m));
 	}
 }
 
@@ -403,8 +410,10 @@ fn e2_sound_volume(tier: Tier, ctx: &mut Ctx) {
 			ex.spawn("audio", move || {
 				let mut buf = [0.0f32; 2];
 				for _ in 0..3 {
-					renderer.on_start_processing();
-					renderer.process(&mut buf, 2);
+					let rep = rig::callback_on(&mut renderer, &mut buf, 1, 2);
+					if !rep.ok() {
+						MON.lock().unwrap().push(format!("{:?}", rep));
+					}
 					heard.lock().unwrap().push(buf[0]);
 				}
 				*back.lock().unwrap() = Some(renderer);
@@ -495,8 +504,10 @@ fn e2_clock_stop(tier: Tier, ctx: &mut Ctx) {
 			ex.spawn("audio", move || {
 				let mut buf = [0.0f32; 2];
 				for _ in 0..3 {
-					renderer.on_start_processing();
-					renderer.process(&mut buf, 2);
+					let rep = rig::callback_on(&mut renderer, &mut buf, 1, 2);
+					if !rep.ok() {
+						MON.lock().unwrap().push(format!("{:?}", rep));
+					}
 					// observed on the audio thread at the callback boundary; only meaningful once stop() has returned
 					if stop_returned.load(Ordering::SeqCst) == 1 {
 						if let Some(c) = keep.lock().unwrap().as_ref() {
@@ -573,8 +584,10 @@ fn e2_first_callback(tier: Tier, ctx: &mut Ctx) {
 			ex.spawn("audio", move || {
 				let mut buf = [0.0f32; 2];
 				for _ in 0..3 {
-					renderer.on_start_processing();
-					renderer.process(&mut buf, 2);
+					let rep = rig::callback_on(&mut renderer, &mut buf, 1, 2);
+					if !rep.ok() {
+						MON.lock().unwrap().push(format!("{:?}", rep));
+					}
 					heard.lock().unwrap().push(buf[0]);
 				}
 				*back.lock().unwrap() = Some(renderer);
